@@ -1,5 +1,6 @@
 from __future__ import annotations
 
+import ast
 import os
 import platform
 import re
@@ -20,6 +21,8 @@ from inline_snapshot._external import DiscStorage
 from inline_snapshot._problems import report_problems
 
 from .._change import apply_all
+from .._code_repr import used_hasrepr
+from .._find_external import ensure_import
 from .._flags import Flags
 from .._global_state import snapshot_env
 from .._rewrite_code import ChangeRecorder
@@ -182,6 +185,16 @@ class Example:
                     ],
                     recorder,
                 )
+
+                # the generated code can use HasRepr(...): import it like the pytest plugin does
+                for test_file in recorder.files():
+                    if used_hasrepr(ast.parse(test_file.new_code())):
+                        ensure_import(
+                            test_file.filename,
+                            {"inline_snapshot": ["HasRepr"]},
+                            recorder,
+                        )
+
                 recorder.fix_all()
 
                 report_output = StringIO()
